@@ -361,3 +361,11 @@ _run_c17 = run
 def run(ctx, R):
     _run_c17(ctx, R)
     r175(ctx, R)
+    # R17.6: the compensation that removes an auto-created consumer after a
+    # failed (rolled back) write deletes by id alone - the in-memory object
+    # may be ahead of the stored row (generation bumped, then rolled back),
+    # so any further predicate can leave the record behind (shape of R4.6)
+    from psa import sqlshape
+    n6 = sqlshape.shape_rule(ctx, R, 'R17.6', [
+        'placement.objects.consumer:_delete_consumer'])
+    R.count('R17.6', n6, 1)
